@@ -37,3 +37,26 @@ Example h1_conflict : ~ conflict_free (run h1) ["e"; "x"].
 Proof.
   intros H. specialize (H ["e"] 3 eq_refl). destruct H as [H _]. vm_compute in H. discriminate.
 Qed.
+
+(** ** leaf handles (CTreeHandle.v): the hypotheses of the handle theorems are met *)
+From Gnmi Require Import CTree.CTreeCheck CTree.CTreeHandle CTree.CTreeHandleProofs.
+
+Definition hh1 : list hop :=
+  [HOp (OAdd (P ["a"; "b"]) 1); HOp (OAdd (P ["a"; "c"]) 2); HHold 0 (P ["a"; "b"]); HHold 1 (P ["a"; "c"])].
+
+Example hh1_live :
+  sget (fst (snd (hmstate hh1))) 0 = HLive (P ["a"; "b"]) /\ lookup (fst (hmstate hh1)) (P ["a"; "b"]) = Some 1.
+Proof. vm_compute. split; reflexivity. Qed.
+
+(** update through the live handle, delete the leaf, re-add it, write through the
+    detached handle: the re-added leaf keeps its own value; a second handle taken on
+    the same leaf before the delete shares the detached node *)
+Example hh1_story :
+  hmrun (hmstate hh1)
+    [HHold 2 (P ["a"; "b"]); HUpdate 0 7; HOp (OGetLeafValue (P ["a"; "b"]));
+     HOp (ODelete (P ["a"; "b"]) CAll); HOp (OAdd (P ["a"; "b"]) 5);
+     HUpdate 0 9; HValue 0; HValue 2; HOp (OGetLeafValue (P ["a"; "b"])); HValue 1]
+  = [RBool true; RBool true; RKind (KLeaf 7);
+     RPaths [P ["a"; "b"]]; RAdd true;
+     RBool true; RKind (KLeaf 9); RKind (KLeaf 9); RKind (KLeaf 5); RKind (KLeaf 2)].
+Proof. vm_compute. reflexivity. Qed.
